@@ -305,6 +305,10 @@ func (w *World) ConvergeE(ns, name string, pendingChanges int) ConvergeResult {
 	stableSince := time.Time{}
 	lastWrites := -1
 	res.Reached = loop.RunUntil(deadline, func() bool {
+		if l2, failed := w.liveAfterFailure(ns, name, live); failed && l2 != live {
+			live = l2
+			res.Resolution = "auto-failed-during-phase"
+		}
 		if w.finalOK(ns, name, live) != "" {
 			stableSince = time.Time{}
 			return false
